@@ -236,11 +236,20 @@ class CryptoPair:
     @property
     def key_phase(self) -> int:
         if self._update_key_requested:
-            return int(not self.recv.key_phase)
+            return int(not self.send.key_phase)
         else:
-            return self.recv.key_phase
+            return self.send.key_phase
 
     def _update_key(self, trigger: str) -> None:
-        apply_key_phase(self.recv, next_key_phase(self.recv), trigger=trigger)
-        apply_key_phase(self.send, next_key_phase(self.send), trigger=trigger)
+        if trigger == "local_update":
+            # Only the send keys change now: the peer keeps protecting its packets
+            # with the previous keys until it sees a packet with the new key phase,
+            # and these packets must still be readable. The receive keys follow
+            # when the first packet with the new key phase arrives.
+            apply_key_phase(self.send, next_key_phase(self.send), trigger=trigger)
+        else:
+            apply_key_phase(self.recv, next_key_phase(self.recv), trigger=trigger)
+            if self.send.key_phase != self.recv.key_phase:
+                # the peer initiated the update, respond with the new keys
+                apply_key_phase(self.send, next_key_phase(self.send), trigger=trigger)
         self._update_key_requested = False
